@@ -19,22 +19,24 @@ CFG = {
             "verifies to the content's value. Non-trivial = history / probe with a non-error outcome (distinct inputs).",
     "tie": {"trie.insert/delete/tryGet (TryUpdate/TryDelete/TryGet)": "corr (Go vs Model.Trie insert/delete/get)",
             "hasher.hash/hashChildren/store (Hash, Commit)": "corr (root recomputed by Model.Trie.hashRoot with the Lean Keccak)",
-            "Commit/reopen/SetCacheLimit/Database.Commit": "corr (must be content no-ops; model treats them as identity)",
+            "Commit/reopen/SetCacheLimit/Database.Commit, resolveHash/resolve": "corr (driver replays them in the partial-load model Model.TrieLoad: node database + partially loaded root, commit = commitDb + unloading, reopen = bare root hash node, on-demand resolution in xget/xinsert/xdelete)",
+            "MissingNodeError": "direct judgement (one node blob deleted from the disk db: error or exact behaviour, never a wrong value)",
             "keybytesToHex/hexToCompact/compactToHex/hexToKeybytes": "corr via overlay accessors",
             "nodeIterator/Iterator": "corr (Go vs Model.Trie.toList)", "Prove/VerifyProof/decodeNode": "corr (Go vs Model.TrieProof) + direct judgement of altered proofs",
             "types.DeriveSha": "corr (root vs model insert and vs mptRoot)"},
     "assumptions": ["Go runtime, math/big and the cryptographic primitives are modelled, not verified (DESIGN.md 2.5)",
                     "Keccak-256 is implemented in Lean only to recompute roots; root theorems hold for an arbitrary hash function, proof "
                     "soundness carries an explicit collision-freedom hypothesis",
-                    "cache flags (hash/gen/dirty) and hash-node resolution are not state of the Lean model; their transparency is checked by the "
-                    "correspondence run (commit/reopen/cache-limit ops must not change any observable)"],
+                    "node cache flags (hash/gen/dirty) are not state of the Lean model (clean = stored in the node database; the hasher's choice of nodes to unload is "
+                    "nondeterministic and proved invisible); stale cached hashes can only be caught by the correspondence run"],
     "trusted_base": ["Model.Trie mirrors trie/trie.go insert/delete/tryGet, trie/encoding.go and trie/hasher.go over fully loaded nodes; "
-                     "Model.TrieProof mirrors trie/proof.go and trie/node.go decodeNode over rlp/raw.go Split"],
+                     "Model.TrieProof mirrors trie/proof.go and trie/node.go decodeNode over rlp/raw.go Split; Model.TrieLoad mirrors the hashNode cases "
+                     "(resolveHash/resolve) of tryGet/insert/delete, Commit's db.insert and the hasher's unloading over a node database"],
 }
 META = {
     "technique": "Lean 4 proof (map refinement, canonical-shape invariant, uniqueness of the canonical trie => root depends on content only, for any hash function) tied to trie/ by differential correspondence with an independent root",
     "text": "Theorems get_insert, get_delete, wf_insert, wf_delete, wf_unique, run_refines, root_content_only, root_eq_spec, root_binding, iter_is_content, "
-            "compact_hex_roundtrip, keybytes_hex_roundtrip, decode_encode_node, prove_verify, verify_sound (explicit collision-freedom), commit_reopen, reopen_get hold for all tries/keys/histories in the Lean model of trie.go/encoding.go/hasher.go/node.go/proof.go; "
+            "compact_hex_roundtrip, keybytes_hex_roundtrip, decode_encode_node, prove_verify, verify_sound (explicit collision-freedom), commit_reopen, reopen_get, unload_get/insert/delete/hashRoot, unload_denotation, commit_reopen_partial, missing_node_is_reported, partial_history_refines, root_content_only_partial hold for all tries/keys/histories in the Lean model of trie.go/encoding.go/hasher.go/node.go/proof.go; "
             "every run re-checks them and replays >1500 random histories on the real Trie/SecureTrie against the compiled model requiring identical "
             "gets, iteration, proofs and root hashes (the root recomputed by Lean's own Keccak), plus direct judgement that no single-byte "
             "alteration of a Merkle proof verifies to a different value.",
